@@ -180,6 +180,7 @@ def split_cases(text):
 def run_tool(exe, case_paths, env=None, timeout=900, chunk=64, args=()):
     """runs exe over case files in parallel chunks; returns dict path -> blocks"""
     from concurrent.futures import ThreadPoolExecutor
+    chunk = min(chunk, max(1, -(-len(case_paths) // NCPU)))      # few cases: still use every core
     chunks = [case_paths[i:i + chunk] for i in range(0, len(case_paths), chunk)]
     def one(ch):
         try:
